@@ -185,3 +185,29 @@ Proof.
 Qed.
 
 End ModesAgree.
+
+(* the same, decided at run time: a tree WITH assignment operators none of which is reached (a failure before it) is
+   evaluated alike by both modes; and once the traced mutable run applies an assignment, the shared-context entry
+   point of every type answers ContextNotMutable with the calls made up to there, the context untouched, while the
+   mutable one is the projection of the mutable run *)
+Section ModesDynamic.
+Variable O : std_oracle.
+
+Lemma node_modes_agree_dynamic (t : etype) (n : node) (c : ctx) (lg : log) :
+  snd (eval_traced O n c lg None) = None ->
+  run_node_entry O MMut t n c lg = run_node_entry O MRo t n c lg.
+Proof.
+  intros H. unfold run_node_entry. rewrite (agree_dynamic O n c lg H).
+  destruct (eval_ro O n c lg) as [r lg']. reflexivity.
+Qed.
+
+Lemma node_ro_refuses (t : etype) (n : node) (c : ctx) (lg : log) (r : outcome value) (c' : ctx) (lg' l0 : log) :
+  eval_traced O n c lg None = (r, c', lg', Some l0) ->
+  run_node_entry O MRo t n c lg = (Err EContextNotMutable, c, l0) /\
+  run_node_entry O MMut t n c lg = (project t r, c', lg').
+Proof.
+  intros H. destruct (traced_marked O n c lg r c' lg' l0 H) as [Hm Hr].
+  unfold run_node_entry. rewrite Hm, Hr. split; reflexivity.
+Qed.
+
+End ModesDynamic.
